@@ -158,3 +158,82 @@ Example ex_new_name :
            (fun c => existsb (str_eqb c) (map s ["eq"; "eq_"; "eq_Fo"]%string))
   = Some (s "eq_F"%string).
 Proof. vm_compute. reflexivity. Qed.
+
+(* ---------- minted names and other plugins ---------- *)
+From Verif Require Import Prefix.Dispatch.
+From Coq Require Import Permutation Sorted.
+
+(* A name minted by plugin a is dispatched back to a (so it can neither be, nor ever be taken
+   for, a name of another plugin) unless some other prefix is a's prefix followed by "_..." *)
+Definition no_underscore_nesting (ps : list plugin) : Prop :=
+  forall a b, In a ps -> In b ps -> is_prefix (pprefix a ++ underscore) (pprefix b) = false.
+
+Lemma cand_suffix_shape name i : cand_suffix name i = [] \/ exists r, cand_suffix name i = underscore ++ r.
+Proof.
+  destruct i as [|j]; cbn [cand_suffix]; [left; reflexivity|right].
+  destruct (length name <? j); eexists; reflexivity.
+Qed.
+
+Lemma is_prefix_app_split p q x :
+  is_prefix q (p ++ x) = true -> length p < length q -> exists y, q = p ++ y /\ y <> [] /\ is_prefix y x = true.
+Proof.
+  revert q; induction p as [|a p IH]; intros q H L.
+  - exists q. split; [reflexivity|]. split; [destruct q; [cbn in L; lia | discriminate] | exact H].
+  - destruct q as [|b q]; [cbn in L; lia|]. cbn in H. apply andb_true_iff in H. destruct H as [E H].
+    apply N.eqb_eq in E. subst b. cbn in L. destruct (IH q H ltac:(lia)) as (y & -> & Hy & Hp).
+    exists y. split; [reflexivity|]. split; assumption.
+Qed.
+
+Lemma same_prefix_same_plugin_names ps p q :
+  distinct_prefixes ps -> In p ps -> In q ps -> pprefix p = pprefix q -> p = q.
+Proof.
+  unfold distinct_prefixes. induction ps as [|a t IH]; intros Hd Hp Hq E; [contradiction|].
+  cbn in Hd. inversion Hd as [|x l Hn Hd']; subst.
+  destruct Hp as [<-|Hp]; destruct Hq as [<-|Hq]; auto.
+  - exfalso. apply Hn. rewrite E. apply in_map; exact Hq.
+  - exfalso. apply Hn. rewrite <- E. apply in_map; exact Hp.
+Qed.
+
+Theorem minted_dispatch_home ps ps' a name i :
+  distinct_prefixes ps -> Permutation ps' ps -> no_underscore_nesting ps -> In a ps ->
+  dispatch (sort_plugins ps') (cand (pprefix a) name i) = Some a.
+Proof.
+  intros Hd Hp Hn Ha.
+  pose proof (dispatch_longest ps ps' (cand (pprefix a) name i) Hd Hp) as H.
+  destruct (dispatch (sort_plugins ps') (cand (pprefix a) name i)) as [b|].
+  - destruct H as (Hb & Hm & Hmax). f_equal.
+    assert (Hma : matches (cand (pprefix a) name i) a) by apply is_prefix_app.
+    specialize (Hmax a Ha Hma).
+    destruct (Nat.eq_dec (length (pprefix b)) (length (pprefix a))) as [E|E].
+    + eapply same_prefix_same_plugin_names; eauto. eapply is_prefix_same_length; eauto.
+    + exfalso. unfold matches, cand in Hm.
+      destruct (is_prefix_app_split _ _ _ Hm ltac:(lia)) as (y & Ey & Hy & Hpy).
+      destruct (cand_suffix_shape name i) as [S|[r S]]; rewrite S in Hpy.
+      * destruct y; [congruence | discriminate].
+      * destruct y as [|c y]; [congruence|]. cbn in Hpy. apply andb_true_iff in Hpy. destruct Hpy as [Ec _].
+        apply N.eqb_eq in Ec. subst c.
+        specialize (Hn a b Ha Hb). rewrite Ey in Hn.
+        replace (pprefix a ++ 95%N :: y) with ((pprefix a ++ underscore) ++ y) in Hn
+          by (rewrite <- app_assoc; reflexivity).
+        rewrite is_prefix_app in Hn. discriminate.
+  - specialize (H a Ha). unfold cand in H. rewrite is_prefix_app in H. discriminate.
+Qed.
+
+(* The pinned tree: every plugin has its own table, so with equal=eq, sort=eq_ the helper that equal
+   mints for a nested type IS the name of sort's function: two declarations of eq_ *)
+Theorem minted_name_collision_refuted :
+  let equal_table := [s "eq"%string] in          (* the user's call eq(a1, a2) *)
+  let sort_name := s "eq_"%string in             (* the user's call eq_(ints), handled by sort=eq_ *)
+  new_name 10 (s "eq"%string) [] (fun c => existsb (str_eqb c) equal_table) = Some sort_name.
+Proof. vm_compute. reflexivity. Qed.
+
+(* the repaired tree: names are reserved package wide, the helper moves on *)
+Example minted_name_collision_fixed :
+  new_name 10 (s "eq"%string) [] (fun c => existsb (str_eqb c) [s "eq"%string; s "eq_"%string]) = Some (s "eq_1"%string).
+Proof. vm_compute. reflexivity. Qed.
+
+Example ex_no_underscore_nesting :
+  no_underscore_nesting [mkP (s "equal"%string) (s "derive"%string); mkP (s "sort"%string) (s "deriveS"%string)].
+Proof.
+  intros a b [<-|[<-|[]]] [<-|[<-|[]]]; vm_compute; reflexivity.
+Qed.
